@@ -88,8 +88,47 @@ def _native_join(ex, algo, variant, script):
     return out
 
 
+def _native_keyed_join(ex, variant, script):
+    """public-API replay (kind `pipe_keyed_join`): group_by(key).join / join_outer in a real job with one replica; the two
+    sources are paced so that items and ends of the sides reach the join in the order of the (single-iteration) script"""
+    from mirsym.executor import RustPanic
+    ev = []
+    for e in script:
+        if e.variant == 'Item':
+            b = e.fields[0]
+            if b.variant in ('Left', 'Right'):
+                ev += [0 if b.variant == 'Left' else 1, hlib.concrete_int(ex, b.fields[0].fields[0]), b.fields[0].fields[1].v]
+            else:
+                ev += [2 if b.variant == 'LeftEnd' else 3, 0, 0]
+        elif e.variant == 'FlushAndRestart':
+            break
+    if sum(1 for e in script if e.variant == 'FlushAndRestart') != 1:
+        raise Unsupported('native keyed join replay covers one iteration only')
+    runner, prof = ex.env['native']
+    ex.env['native_used'] = True
+    txt = runner('pipe_keyed_join', [{'Inner': 0, 'Outer': 2}[variant], len(ev) // 3] + ev, timeout=120)[prof]
+    ex.env['native_out'] = txt
+    if txt == 'PANIC':
+        raise RustPanic('the real keyed join job panicked on this input')
+    if txt.startswith(('BADARGS', 'UNKNOWN', 'NORESULT', 'NOOUTPUT')):
+        raise Unsupported('native driver: ' + txt)
+    if txt.startswith('TIMEOUT'):
+        raise Violation('the real keyed join job does not terminate', hlib._wit(ex))
+    out = []
+    for tok in txt.split():
+        if tok == '-':
+            continue
+        k, rest = tok.split(':')
+        l, r = rest.split('-')
+        mk = lambda v: none() if v == '_' else some(Int('u64', int(v)))
+        out.append(hlib.se('Item', Agg('tuple', None, [Int('u64', int(k)), Agg('tuple', None, [mk(l), mk(r)])])))
+    out += [hlib.se('FlushAndRestart'), hlib.se('Terminate')]
+    return out
+
+
 def join_harness(w, algo, variant, nl, nr, iters):
-    tb = {'hash': 'JoinLocalHash', 'sort_merge': 'JoinLocalSortMerge'}[algo]
+    tb = {'hash': 'JoinLocalHash', 'sort_merge': 'JoinLocalSortMerge', 'keyed': 'JoinKeyedOuter' if variant != 'Inner'
+          else 'JoinKeyedInner'}[algo]
     new = w.impls[(None, tb)]['new'][0]
     nxt = w.impls[('Operator', tb)]['next'][0]
     hlib.check_se_table(w)
@@ -100,11 +139,17 @@ def join_harness(w, algo, variant, nl, nr, iters):
     def h(ex):
         ex.env['hash_order'] = 'any'
         script, meta = join_script(ex, nl, nr, iters)
-        if ex.env.get('native'):
+        if ex.env.get('native') and algo == 'keyed':
+            out = _native_keyed_join(ex, variant, script)
+        elif ex.env.get('native'):
             out = _native_join(ex, algo, variant, script)
         else:
-            op = ex.call_function(new, [hlib.Upstream(script), Enum('JoinVariant', variant, jv[variant], []),
-                                        KeyOf(), KeyOf()])
+            if algo == 'keyed':
+                ex.env['generics'] = {'K': 'u64'}
+                args = [hlib.Upstream(script)] + ([Enum('JoinVariant', variant, jv[variant], [])] if variant != 'Inner' else [])
+            else:
+                args = [hlib.Upstream(script), Enum('JoinVariant', variant, jv[variant], []), KeyOf(), KeyOf()]
+            op = ex.call_function(new, args)
             out = hlib.drive(ex, nxt, [op], 4 * (nl + 1) * (nr + 1) * iters + 8)
         sx = lambda: {'algo': algo, 'variant': variant, 'script': [repr(e) for e in script],
                       'output': [repr(e) for e in out]}
@@ -133,8 +178,16 @@ def join_harness(w, algo, variant, nl, nr, iters):
                     raise Violation('join emitted %s inside an iteration' % e.variant, hlib._wit(ex), sx())
                 key, pair = e.fields[0].fields
                 lo, ro = pair.fields
-                li = lo.fields[0].fields[1].v if lo.variant == 'Some' else None
-                ri = ro.fields[0].fields[1].v if ro.variant == 'Some' else None
+
+                def ident(o):
+                    # hash / sort-merge joins carry the whole (key, id) item, the keyed join the value (id) only;
+                    # inner variants have no Option around it
+                    if isinstance(o, Enum):
+                        if o.variant != 'Some':
+                            return None
+                        o = o.fields[0]
+                    return o.fields[1].v if isinstance(o, Agg) else o.v
+                li, ri = ident(lo), ident(ro)
                 got.append((li, ri))
                 for i in (li, ri):
                     if i is not None:
@@ -168,6 +221,16 @@ def join_tasks(tier, role):
                        {'algo': algo, 'variant': 'Outer', 'nl': 1, 'nr': 2, 'iters': 2},
                        bounds='%s outer join, 2 iterations x (<=1 left, <=2 right) items, symbolic keys' % algo,
                        role=role, opts={'covers': ['matched_pair']}, budget=300))
+    for variant in ('Inner', 'Outer'):
+        ts.append(Task('join_keyed_%s' % variant.lower(), 'join_harness',
+                       {'algo': 'keyed', 'variant': variant, 'nl': 2, 'nr': 2, 'iters': 1},
+                       bounds='KeyedStream::join%s operator (JoinKeyed%s): <=2 left and <=2 right (key, value) items with '
+                              'symbolic keys, every interleaving of the sides and every position of LeftEnd/RightEnd, 1 '
+                              'iteration' % ('_outer' if variant == 'Outer' else '', variant if variant == 'Inner' else 'Outer'),
+                       role=role, opts={'covers': ['matched_pair']}, budget=300))
+    ts.append(Task('join_keyed_outer_2iter', 'join_harness', {'algo': 'keyed', 'variant': 'Outer', 'nl': 1, 'nr': 2, 'iters': 2},
+                   bounds='keyed outer join, 2 iterations x (<=1 left, <=2 right) items, symbolic keys', role=role,
+                   opts={'covers': ['matched_pair']}, budget=300))
     if tier != 'quick':
         for algo in ('hash', 'sort_merge'):
             ts.append(Task('join_%s_outer_3x2' % algo, 'join_harness',
